@@ -175,7 +175,7 @@ class C14(Check):
         # the chosen manifest cannot be READ any more when the writer comes to it (vanished, EIO, EACCES after discovery)
         for a in plain:
             for rk in ("vanish-before-read", "read-eio", "read-eacces"):
-                for nth in (1, 2):
+                for nth in (1, 2, 3):  # 1 = discovery, 2 / 3 = the writer's own reads
                     exps.append({"kind": "read-fault", "include": ["pixee:python/url-sandbox"],
                                  "files": [{"path": "pkg/app.py", "snippets": [r["idx"]], "layout": {}}, {"path": names[a]["file"], "manifest": names[a]["idx"]}],
                                  "enum_seeds": [None, None], "faults": "read-fault", "fault_kind": rk, "fault_nth": nth, "fault_pick": 0,
@@ -324,7 +324,6 @@ class C14(Check):
                           and w["before"] != w["after"]})
         touched = sorted({m[1][4:] for m in first["mutations"] if m[1].startswith("<T>/") and m[1][4:] in manifests})
         faulted = {p["path"][4:] for p in outcomes["plan"]}
-        fk_ = exp.get("fault_kind")
         if len(written) > 1:
             add("more-than-one-manifest", "+".join(mname(p) for p in written), {"written": written})
         for p in written:
@@ -385,8 +384,9 @@ class C14(Check):
                 if cs.get("path") in manifests and cs.get("path") not in written:
                     add("changeset-for-unwritten-manifest", mname(cs["path"]), {"path": cs["path"]})
         # a faulted manifest must stay byte-identical
-        for p in faulted:
-            if p in first["changed"] and not (fk_ == "vanish-before-read" and first["changed"][p] is None):
+        # (a manifest whose n-th READ fails may well have been updated before that read: the clause is about write faults)
+        for p in faulted if exp["faults"] != "read-fault" else ():
+            if p in first["changed"]:
                 add("unwritable-manifest-changed", mname(p), {"path": p})
         return v
 
